@@ -72,9 +72,19 @@ def run_sequence(cfg, seq, check_bound=True):
         now[0] += dt
         t = now[0]
         if cmd == "CLEANUP":
-            rl.cleanup()  # what web.start_client does whenever any connection ends
+            try:
+                rl.cleanup()  # what web.start_client does (unguarded, in its finally block) whenever any connection ends
+            except Exception as e:
+                viol.append(V("limiter-raised:cleanup", "the limiter decides or tidies up, it never raises into the connection handler",
+                              cfg=cfg, step=step, exc=repr(e)[:200], seq=seq[:step + 1]))
+                break
             continue
-        limited = rl.is_limited(addr, [cmd])
+        try:
+            limited = rl.is_limited(addr, [cmd])
+        except Exception as e:
+            viol.append(V("limiter-raised:is_limited", "the limiter decides or tidies up, it never raises into the connection handler",
+                          cfg=cfg, step=step, exc=repr(e)[:200], seq=seq[:step + 1]))
+            break
         scopes = applicable(cfg, addr, cmd)
         if limited:
             refused += 1
